@@ -24,7 +24,7 @@ func randArgs(r *rng.R) tgen.Args {
 }
 
 func Run(c *core.Ctx) {
-	c.Rule = "programs: every .templ file of the repository (generator text tie) plus grammar-generated templ files (internal/tgen: all node kinds, six attribute kinds nested under conditionals, class/style/URL/spread sinks, if/else-if/else, for, switch, calls with and without blocks, children, hand-written callees, raw Go, comments, script/style elements with {{ }}, random single-/multi-line layout); inputs: argument tuples from a pool of adversarial strings; distinct non-trivial = distinct (template, argument tuple) pairs rendered by the compiled generated code"
+	c.Rule = "programs: every .templ file of the repository (generator text tie) plus grammar-generated templ files (internal/tgen: all node kinds, six attribute kinds nested under conditionals, class/style/URL/spread sinks, if/else-if/else, for, switch, calls with and without blocks, children, hand-written callees, raw Go, comments, script/style elements with {{ }}, random single-/multi-line layout) plus templ files from the fragment grammar of the proof layer (tgen.Opts.Fragment: what coq/model/IrFragPrint.v's to_frag accepts), rendered with error-biased argument tuples; inputs: argument tuples from a pool of adversarial strings; distinct non-trivial = distinct (template, argument tuple) pairs rendered by the compiled generated code"
 	c.Proofs()
 	// (i) text tie of the generator model
 	inputs := gentie.RepoTemplates()
@@ -56,6 +56,19 @@ func Run(c *core.Ctx) {
 			files = append(files, f)
 		}
 		prog, err := probe.Build(files, tgen.Helpers)
+		if err != nil {
+			// The grammar's raw Go snippets ("k := len(xs)", "var q = 1") can land twice in one Go block: the template's
+			// own Go code is then ill-typed (the property quantifies over well-typed files).  Only when EVERY compiler
+			// error is such a redeclaration inside user code are the named files dropped and the rest rebuilt.
+			if rest, dropped := dropRedeclared(files, prog.BuildLog); dropped > 0 {
+				prog.Close()
+				for i := 0; i < dropped; i++ {
+					c.Hist("generated template with ill-typed raw Go (redeclared variable): dropped")
+				}
+				files = rest
+				prog, err = probe.Build(files, tgen.Helpers)
+			}
+		}
 		if err != nil {
 			compileOK = false
 			c.Fail("property", "generated code compiles", "", map[string]any{"build_log": trunc(prog.BuildLog, 3000), "files": len(files), "first_source": files[0].Src},
@@ -115,12 +128,42 @@ func Run(c *core.Ctx) {
 
 	// (iii) the proof layer's fragment, tied to the generator text and to the compiled code
 	fragment(c)
+	hoistFamily(c)
 	c.Sample(map[string]any{"note": "a rendered case", "args": randArgs(c.Rng)})
 }
 
 // renderable generates a file restricted to what the denotation renders: no css/script templates, no on* attributes.
 func renderable(r *rng.R, o tgen.Opts) string {
 	return tgen.File(r, o)
+}
+
+// dropRedeclared: if every error line of the build log is "redeclared in this block" / "no new variables on left side
+// of :=" (with its "other declaration" continuation), the files without such errors and the number dropped; else 0.
+func dropRedeclared(files []probe.File, log string) ([]probe.File, int) {
+	bad := map[string]bool{}
+	for _, ln := range strings.Split(log, "\n") {
+		t := strings.TrimSpace(ln)
+		if t == "" || strings.HasPrefix(t, "#") || strings.Contains(t, "too many errors") {
+			continue
+		}
+		if !(strings.Contains(t, "redeclared in this block") || strings.Contains(t, "no new variables on left side of :=") || strings.Contains(t, "other declaration of")) {
+			return files, 0
+		}
+		t = strings.TrimPrefix(t, "./")
+		if i := strings.Index(t, "_templ.go:"); i > 0 {
+			bad[t[:i]] = true
+		}
+	}
+	if len(bad) == 0 {
+		return files, 0
+	}
+	var rest []probe.File
+	for _, f := range files {
+		if !bad[f.Prefix] {
+			rest = append(rest, f)
+		}
+	}
+	return rest, len(files) - len(rest)
 }
 
 func trunc(s string, n int) string {
